@@ -214,12 +214,33 @@ MC_FOR = {
 INVARIANTS = "TypeOK C01_NoForgedCompletion C03_ExactlyOnceDelivery C05_WireOrderIsIdOrder C12_Signals C17_Bounded C18_ConnectFirst"
 
 
+# Liveness of the design under fairness (small instances, no hist): (script, conns, dial, write, read, store, calls, properties)
+LIVE = {
+    "live_one":   ("ScriptOne",   3, 1, 1, 1, 0, 8, "C10_ReaderProgress C01_Drained C11_Returns"),
+    "live_f4":    ("ScriptF4",    4, 0, 1, 0, 0, 8, "C10_ReaderProgress C01_Drained"),
+    "live_req":   ("ScriptReq",   3, 0, 1, 0, 0, 6, "C11_Returns C10_ReaderProgress"),
+    "live_close": ("ScriptClose", 2, 0, 1, 0, 0, 5, "C12_Returns C12_ReaderEnds"),
+}
+LIVE_FOR = {"C01": ["live_one", "live_f4"], "C10": ["live_one", "live_f4"], "C11": ["live_req"], "C12": ["live_close"], "C03": ["live_f4"]}
+
+
+def tlc_liveness(ctx, name, dev=""):
+    sc, conns, dial, write, read, store, calls, props = LIVE[name]
+    cfg = ("CONSTANTS Script <- %s AMax = 2 EMax = 2 MaxConns = %d DialFails = %d WriteFails = %d ReadFails = %d StoreFails = %d "
+           "MaxCalls = %d RecordHist = FALSE DEV_F4 = %s DEV_F6 = %s SampleK = 1\nSPECIFICATION LiveSpec\nPROPERTIES %s\nCHECK_DEADLOCK FALSE\n") % (
+        sc, conns, dial, write, read, store, calls, "TRUE" if dev == "F4" else "FALSE", "TRUE" if dev == "F6" else "FALSE", props)
+    cfgname = "MC_client_%s%s_gen.cfg" % (name, dev)
+    with open(os.path.join(ctx.specdir(), cfgname), "w") as f:
+        f.write(cfg)
+    return pipeline.model_check(ctx, "MC_client", cfgname, workers=8, timeout=900, expect_ok=(dev == ""))
+
+
 def tlc_behaviours(ctx, name, cap):
     """Model-checks one bounded instance (design-level result) and returns exported behaviours."""
     c = MC[name]
     k = c["k_quick"] if ctx.tier == "quick" else c["k_thorough"]
     cfg = ("CONSTANTS Script <- %s AMax = %d EMax = %d MaxConns = %d DialFails = %d WriteFails = %d ReadFails = %d "
-           "StoreFails = %d MaxCalls = %d DEV_F4 = FALSE DEV_F6 = FALSE SampleK = %d\n"
+           "StoreFails = %d MaxCalls = %d RecordHist = TRUE DEV_F4 = FALSE DEV_F6 = FALSE SampleK = %d\n"
            "SPECIFICATION Spec\nVIEW view\nINVARIANTS %s\nCHECK_DEADLOCK FALSE\nACTION_CONSTRAINT ExportStep\n") % (
         c["script"], c["amax"], c["emax"], c["conns"], c["dial"], c["write"], c["read"], c["store"], c["calls"], k, INVARIANTS)
     cfgname = "MC_client_%s_gen.cfg" % name
@@ -278,6 +299,8 @@ def run(ctx, replay=None):
         cap = (1200 if ctx.tier == "quick" else 12000) // max(1, len(mcs))
         for name in mcs:
             behs += tlc_behaviours(ctx, name, cap)
+        for name in LIVE_FOR.get(ctx.prop, []):
+            tlc_liveness(ctx, name)   # temporal clauses of the property on the design, under fairness
         if mcs:
             ctx.level = "model_checking"
     if not behs:
